@@ -10,18 +10,24 @@ CLAIM = dict(
           "(NDEBUG and asserts on): utils::isequal and utils::isclose (public entries and detail:: entries) return exactly the "
           "structural comparison — same dimension, same shape, all elements equal / all |a-b| < eps; empty optional = empty "
           "optional, empty <> present; eithers alternative by alternative (with the caller's eps); tuples component by component — "
-          "or the pairing is rejected at compile time; both are reflexive, symmetric, return false on different length / "
+          "or the pairing is rejected at compile time; the elements compared are the LOGICAL ones (by multi-index through apply_at): "
+          "for two array objects (layout, shape, buffer) the answer depends only on the shapes and the logical element lists, "
+          "whatever the two memory layouts (row-/column-major); both are reflexive, symmetric, return false on different length / "
           "dimension / shape, never abort and never read outside an operand. (isclose reached this through three repairs found "
           "here: run-time shape test instead of assert-only, eps forwarded by the one-sided either arms, scalar difference in the "
           "common type; the last one is listed as a known finding until it is in the tree.) "
           "Tied to the C++ by running both functions in three builds (NDEBUG, asserts+ASan+UBSan, NDEBUG+ASan) on all ordered pairs "
           "of shapes dim 1..3 extents 1..3, perturbations at every position, index arrays of four container kinds incl. "
-          "compile-time constants, dynamic / fixed nested std::array / view operands, optionals, eithers, tuples, both argument orders."),
+          "compile-time constants, dynamic / fixed nested std::array / view operands in row-major AND column-major layout (every "
+          "array form, mixed-layout pairs in both orders, equal / perturbed at every position / buffer-identical-but-logically-"
+          "different partners), optionals, eithers, tuples, both argument orders."),
     ref="5.18", technique="Coq proof (double structural induction over the operand universe, generic over the outcome relation) + "
                           "differential correspondence with the extracted model in three builds", extra="")
 RULE = ("all ordered pairs of shapes dim 1..3 extents 1..3 (39x39) with iota data through isequal and isclose (dynamic operands; "
         "view / reshape-view / fixed nested std::array kinds rotating); every shape with one element perturbed at every position "
-        "(+-1, +-eps); index arrays (vector<int>, vector<size_t>, std::array, tuple, ct tuple) in every ordered kind pairing with "
+        "(+-1, +-eps); every shape of dim >= 2 in 7 ordered pairings of row-major / column-major owners and views (equal, one "
+        "position perturbed at every position, and the partner whose column-major buffer equals the other one's row-major buffer); "
+        "maybe / either / tuple forms with random mixed layouts; index arrays (vector<int>, vector<size_t>, std::array, tuple, ct tuple) in every ordered kind pairing with "
         "equal / prefix / longer / perturbed contents through utils::isequal and utils::detail::isequal; index array vs 1-d/2-d "
         "ndarray; maybe x maybe, maybe x plain; either x either, either x plain, either x scalar; tuples of arrays, of "
         "maybe+scalar, maybe of tuple; both argument orders. non-trivial = some array operand of dim >= 2; distinct = distinct lines")
@@ -30,7 +36,7 @@ THEOREM_STATUS = {
                "C18_isequal_symmetric", "C18_isequal_different_shape_is_false", "C18_isequal_different_length_is_false",
                "C18_isequal_maybe_either_tuple", "C18_isclose_is_structural_closeness", "C18_isclose_never_aborts_or_reads_outside",
                "C18_isclose_reflexive_symmetric", "C18_isclose_different_shape_is_false", "C18_isclose_same_shape",
-               "C18_reference_symmetric"],
+               "C18_reference_symmetric", "C18_layout_independent"],
     "partial": [],
     "refuted": ["C18_isclose_unsigned_refuted"]}
 ASSUMPTIONS = ["operands are well formed: extents >= 1, buffer length = product of extents, index arrays non-empty",
@@ -77,6 +83,8 @@ def gen_cases(rng, tier):
     def both(stream, form, args, eps=(2,)):
         add(stream, "eq_%s %s" % (form, " ".join(args)))
         for e in eps: add(stream, "cl_%s %s I:%d" % (form, " ".join(args), e))
+    def lay():   # memory layouts of the two operands' arrays: mostly mixed
+        return rng.choice(["", ".rc", ".cr", ".cc", ".rc", ".cr"])
     shapes = []
     for d in (1, 2, 3): shapes += list(itertools.product((1, 2, 3), repeat=d))
     # ---- all ordered pairs of shapes, iota data (equal on the common flat prefix: the hardest case for a flat compare)
@@ -88,6 +96,9 @@ def gen_cases(rng, tier):
             if n % 5 == 1: ka = "ref"
             if n % 5 == 2: kb = "rsh"
             if n % 7 == 3: ka = "rsh"
+            if n % 11 == 4: ka = "col"
+            if n % 11 == 6: kb = "col"
+            if n % 13 == 5: ka = "cref"
             if a in FIX and b in FIX: ka = kb = "fix" if n % 2 else "dyn"
             elif a in FIX and n % 3 == 0: ka = "fix"
             elif b in FIX and n % 3 == 1: kb = "fix"
@@ -100,10 +111,29 @@ def gen_cases(rng, tier):
             for delta in (1, -1, 2, 3, -8):
                 if tier == "quick" and delta in (3, -8) and pos % 2: continue
                 d2 = list(base); d2[pos] += delta
-                k = rng.choice(["dyn", "dyn", "ref", "rsh"] + (["fix"] if a in FIX else []))
-                args = ["S:dyn", "S:" + k, A(a, base), A(a, d2)]
+                k = rng.choice(["dyn", "dyn", "ref", "rsh", "col", "col", "cref"] + (["fix"] if a in FIX else []))
+                args = ["S:" + rng.choice(["dyn", "dyn", "col"]), "S:" + k, A(a, base), A(a, d2)]
                 both("perturb", "aa", args, eps=(2, 3))
                 both("perturb", "aa", [args[1], args[0], args[3], args[2]], eps=(2,))
+    # ---- mixed memory layouts: the comparison is of LOGICAL elements.  Every shape of dim >= 2, every ordered pairing of
+    # row-major / column-major owners (and views of them): equal content, one element perturbed at every position, and the
+    # "aliased" partner whose column-major buffer is byte-identical to the first operand's row-major buffer
+    def col_offset(idx, shp):
+        o = 0; st = 1
+        for i, e in zip(idx, shp): o += i * st; st *= e
+        return o
+    for a in shapes:
+        if len(a) < 2: continue
+        base = [4 * (i + 1) for i in range(prod(a))]
+        alias = [base[col_offset(idx, a)] for idx in itertools.product(*[range(e) for e in a])]
+        for ka, kb in (("dyn", "col"), ("col", "dyn"), ("col", "col"), ("col", "ref"), ("cref", "dyn"), ("rsh", "col"), ("cref", "col")):
+            both("layouts", "aa", ["S:" + ka, "S:" + kb, A(a, base), A(a, base)])
+            both("layouts", "aa", ["S:" + ka, "S:" + kb, A(a, base), A(a, alias)])
+            both("layouts", "aa", ["S:" + ka, "S:" + kb, A(a, alias), A(a, base)])
+            for pos in range(len(base)):
+                d2 = list(base); d2[pos] += 1 if pos % 2 else -3
+                both("layouts", "aa", ["S:" + ka, "S:" + kb, A(a, base), A(a, d2)])
+                if ka != kb: both("layouts", "aa", ["S:" + ka, "S:" + kb, A(a, d2), A(a, base)])
     # ---- index arrays: every ordered kind pairing
     lists = [(2, 3), (2, 3, 4), (3, 2), (6,), (2,), (2, 3, 4, 5), (2, 4), (2, 3, 5), (7,), (1, 1, 1),
              (4, 3), (5, 3, 4), (2, 9, 4), (9, 3, 4, 5), (2, 9, 4, 5), (2, 3, 9, 5), (2, 3, 4, 9)]   # one position perturbed, every position
@@ -125,8 +155,9 @@ def gen_cases(rng, tier):
                 if prod(shp) == len(x): datas = [list(x), [v + (1 if i == len(x) - 1 else 0) for i, v in enumerate(x)]]
                 else: datas = [(list(x) + [9, 9, 9, 9])[:prod(shp)]]
                 for dt in datas:
-                    add("idx-vs-array", "eq_ia S:%s %s %s" % (k, L(x), A(shp, dt)))
-                    add("idx-vs-array", "eq_ai S:%s %s %s" % (k, A(shp, dt), L(x)))
+                    ly = rng.choice(["", "", ".rc", ".cr", ".cc"])
+                    add("idx-vs-array", "eq_ia%s S:%s %s %s" % (ly, k, L(x), A(shp, dt)))
+                    add("idx-vs-array", "eq_ai%s S:%s %s %s" % (ly, k, A(shp, dt), L(x)))
                     if k in ("vec", "arr"):
                         d4 = [4 * v for v in dt]
                         add("idx-vs-array", "cl_ia S:%s %s %s I:2" % (k, L(x), A(shp, d4)))
@@ -142,25 +173,25 @@ def gen_cases(rng, tier):
     mp = ["N"] + pool
     for x in mp:
         for y in mp:
-            both("maybe", "mm", [x, y], eps=(2, 3))
-            if y != "N": both("maybe", "ma", [x, y]); both("maybe", "am", [y, x])
+            both("maybe", "mm" + lay(), [x, y], eps=(2, 3))
+            if y != "N": both("maybe", "ma" + lay(), [x, y]); both("maybe", "am" + lay(), [y, x])
     ep = pool + ["I:8", "I:9", "I:10"]
     for x in ep:
         for y in ep:
-            both("either", "ee", [x, y], eps=(1, 3))
-            if not y.startswith("I:"): both("either", "ea", [x, y], eps=(1, 3)); both("either", "ae", [y, x], eps=(1, 3))
-            else: both("either", "en", [x, y], eps=(1, 3)); both("either", "ne", [y, x], eps=(1, 3))
+            both("either", "ee" + lay(), [x, y], eps=(1, 3))
+            if not y.startswith("I:"): both("either", "ea" + lay(), [x, y], eps=(1, 3)); both("either", "ae" + lay(), [y, x], eps=(1, 3))
+            else: both("either", "en" + lay(), [x, y], eps=(1, 3)); both("either", "ne" + lay(), [y, x], eps=(1, 3))
     nt = 300 if tier == "quick" else 3000
     for _ in range(nt):
         a, b, c, d = (rng.choice(pool) for _ in range(4))
         if rng.random() < 0.5: c = a
         if rng.random() < 0.5: d = b
-        both("tuple", "tt", [a, b, c, d])
+        both("tuple", "tt" + lay(), [a, b, c, d])
         m1, m2 = rng.choice(mp), rng.choice(mp)
         if rng.random() < 0.5: m2 = m1
         i1 = rng.choice([8, 9]); i2 = i1 if rng.random() < 0.6 else rng.choice([8, 9, 10])
-        both("tuple", "tm", [m1, "I:%d" % i1, m2, "I:%d" % i2])
-        both("tuple", "mt", [m1, "I:%d" % i1, m2, "I:%d" % i2])
+        both("tuple", "tm" + lay(), [m1, "I:%d" % i1, m2, "I:%d" % i2])
+        both("tuple", "mt" + lay(), [m1, "I:%d" % i1, m2, "I:%d" % i2])
     if tier == "thorough":
         # random pairs with random data: dims 1..4, extents 1..4
         for _ in range(20000):
@@ -168,7 +199,7 @@ def gen_cases(rng, tier):
             b = a if rng.random() < 0.5 else tuple(rng.randint(1, 4) for _ in range(rng.randint(1, 4)))
             da = [4 * rng.randint(0, 3) for _ in range(prod(a))]
             db = list(da) if (a == b and rng.random() < 0.5) else [4 * rng.randint(0, 3) + rng.choice([0, 0, 0, 1]) for _ in range(prod(b))]
-            both("random", "aa", ["S:dyn", "S:" + rng.choice(["dyn", "ref", "rsh"]), A(a, da), A(b, db)], eps=(rng.choice([1, 2, 5]),))
+            both("random", "aa", ["S:" + rng.choice(["dyn", "col"]), "S:" + rng.choice(["dyn", "ref", "rsh", "col", "cref"]), A(a, da), A(b, db)], eps=(rng.choice([1, 2, 5]),))
     return out
 
 
